@@ -6,7 +6,8 @@ import ast
 from .. import census
 from ..ir import walk
 from ..loader import AnalysisError
-from .common import GRID_MOD, INTERP_MOD, call_args, is_ext_call
+from .common import GRID_MOD, INTERP_MOD, attr, call_args, is_ext_call
+from .seqform import affine, position, range_count, seqform
 
 EXPLANATION = (
     "Decided: R18.1 key agreement per format - the datasets, groups and attributes the HDF5 reader opens are "
@@ -55,79 +56,237 @@ def run(ck, ctx):
         if need not in fns:
             raise AnalysisError(f"{need} not found in utils/grid.py")
 
-    # ---------------------------------------------------------------- R18.1 keys
-    def r181():
-        hr, hw = fns["hdf5_nssgrid_reader"].node, fns["hdf5_nssgrid_writer"].node
-        created = set()
-        for n in ast.walk(hw):
-            if isinstance(n, ast.Call) and isinstance(n.func, ast.Attribute) and n.func.attr in ("create_dataset", "create_group") \
-                    and n.args and isinstance(n.args[0], ast.Constant):
-                created.add((n.func.attr, n.args[0].value))
-        opened = {s for s in strs(hr) if s.startswith("__")}
-        ck.ob("R18.1", "HDF5 writer creates the data set and the axes group", created >= {("create_dataset", DATA),
-              ("create_group", AXES)}, (m.relpath, hw.lineno, 0), "hdf5_nssgrid_writer", str(sorted(created)))
-        ck.ob("R18.1", "HDF5 reader opens exactly the names the writer creates", opened == {n for _k, n in created},
-              (m.relpath, hr.lineno, 0), "hdf5_nssgrid_reader", f"reader {sorted(opened)} vs writer {sorted(created)}")
-        # axes stored under their names, read by the names found in the attributes
-        per_axis = [n for n in ast.walk(hw) if isinstance(n, ast.Call) and isinstance(n.func, ast.Attribute) and
-                    n.func.attr == "create_dataset" and n.args and isinstance(n.args[0], ast.Name)]
-        ck.ob("R18.1", "HDF5 writer stores each axis under its axis name", len(per_axis) == 1 and
-              any(isinstance(f, ast.For) and "zip(grid.axes, grid.axis_names)" in ast.unparse(f.iter).replace("  ", " ")
-                  for f in ast.walk(hw)), (m.relpath, hw.lineno, 0), "hdf5_nssgrid_writer", "")
-        # AXIS{i} pattern: reader (attrs) == NssGrid.__init__ (meta) ; writer copies all of grid.meta to attrs
-        ci = m.classes.get("NssGrid")
-        init = ci.methods["__init__"].node if ci and "__init__" in ci.methods else None
-        p_init = set(fstr_patterns(init)) if init is not None else set()
-        p_rd = {p for p in fstr_patterns(hr) if "AXIS" in p}
-        p_fr = {p for p in fstr_patterns(fns["fits_nssgrid_reader"].node) if "AXIS" in p}
-        ck.ob("R18.1", "the axis-name keyword pattern AXIS{i} is the same in the constructor's meta and both readers",
-              p_rd == {"AXIS{}"} and p_fr == {"AXIS{}"} and {p for p in p_init if "AXIS" in p} == {"AXIS{}"},
-              (m.relpath, hr.lineno, 0),
-              "hdf5_nssgrid_reader", f"constructor {sorted(p for p in p_init if 'AXIS' in p)}, hdf5 {sorted(p_rd)}, fits {sorted(p_fr)}")
-        meta_copy = any(isinstance(f, ast.For) and ast.unparse(f.iter).replace(" ", "") == "grid.meta.items()" and
-                        "attrs[k]=v" in ast.unparse(f).replace(" ", "") for f in ast.walk(hw))
-        ck.ob("R18.1", "HDF5 writer copies every meta entry (the AXIS{i} names) to the group's attributes", meta_copy,
-              (m.relpath, hw.lineno, 0), "hdf5_nssgrid_writer", "")
-        ok_idx = init is not None and any(isinstance(n, ast.DictComp) and
-                                          ast.unparse(n.generators[0].iter).replace(" ", "") == "enumerate(axis_names)"
-                                          for n in ast.walk(init))
-        rng = [ast.unparse(n.generators[0].iter).replace(" ", "") for f_ in (hr, fns["fits_nssgrid_reader"].node)
-               for n in ast.walk(f_) if isinstance(n, ast.ListComp) and "AXIS" in ast.unparse(n.elt)]
-        ck.ob("R18.1", "both readers number the axes from 0 (range(n))", len(rng) == 2 and
-              all(r.startswith("range(") and "," not in r for r in rng), (m.relpath, hr.lineno, 0), "hdf5_nssgrid_reader",
-              str(rng))
-        ck.ob("R18.1", "the constructor numbers the axis names in axis order (enumerate)", ok_idx,
-              (m.relpath, init.lineno if init is not None else 1, 0), "NssGrid.__init__", "")
-        # FITS: [primary, *hdus] ; reader f[i + 1]
-        fw, fr = fns["fits_nssgrid_writer"].node, fns["fits_nssgrid_reader"].node
-        lists = [n for n in ast.walk(fw) if isinstance(n, ast.Call) and census.dotted(n.func).endswith("HDUList")]
-        ok_w = len(lists) == 1 and isinstance(lists[0].args[0], ast.List) and len(lists[0].args[0].elts) == 2 and \
-            isinstance(lists[0].args[0].elts[0], ast.Name) and isinstance(lists[0].args[0].elts[1], ast.Starred)
-        ck.ob("R18.1", "FITS writer writes [primary HDU, one table per axis in axis order]", ok_w,
-              (m.relpath, fw.lineno, 0), "fits_nssgrid_writer", ast.unparse(lists[0])[:80] if lists else "")
-        subs = [ast.unparse(n.slice).replace(" ", "") for n in ast.walk(fr) if isinstance(n, ast.Subscript) and
-                isinstance(n.value, ast.Name) and n.value.id == "f"]
-        ck.ob("R18.1", "FITS reader takes the data from HDU 0 and axis i from HDU i+1", set(subs) == {"0", "i+1"},
-              (m.relpath, fr.lineno, 0), "fits_nssgrid_reader", str(sorted(set(subs))))
-        hdus_from = any(isinstance(n, ast.ListComp) and "zip(grid.axes, grid.axis_names)" in ast.unparse(n).replace("  ", " ")
-                        for n in ast.walk(fw))
-        ck.ob("R18.1", "FITS axis tables are built from (axis, name) pairs in axis order", hdus_from,
-              (m.relpath, fw.lineno, 0), "fits_nssgrid_writer", "")
-        # registry
+    # ---------------------------------------------------------------- R18.1 keys (value graph)
+    def base_of(n):
+        """strip mutation versions (x after x.add_checksum() is still x)"""
+        while n.op == "Scatter":
+            n = n.args[0]
+        return n
+
+    def const_str(n):
+        return n.attr if n is not None and n.op == "Const" and isinstance(n.attr, str) else None
+
+    def fstr_key(n, it):
+        """(prefix, position function) of a key  f"<prefix>{index}"  built per element of sequence `it`"""
+        if n.op != "FStr" or len(n.args) != 2 or const_str(n.args[0]) is None:
+            return None
+        return (n.args[0].attr, position(I, n.args[1], it))
+
+    def ctor_call(log0):
+        calls = [c for c in I.call_log[log0:] if c[0].qualname == "NssGrid.__init__"]
+        if len(calls) != 1:
+            raise AnalysisError(f"reader constructs {len(calls)} grids")
+        return calls[0][2]
+
+    def single_map(n, what):
+        sf = seqform(I, n)
+        if sf is None or len(sf) != 1 or sf[0][0] != "map" or sf[0][3]:
+            raise AnalysisError(f"{what}: not a one-element-per-item list ({g.show(n, 3)})")
+        return sf[0][1], sf[0][2]
+
+    def registered():
         reg = {}
         for st in m.tree.body:
-            if isinstance(st, ast.Expr) and isinstance(st.value, ast.Call) and census.dotted(st.value.func).startswith("registry.register_"):
+            if isinstance(st, ast.Expr) and isinstance(st.value, ast.Call) and \
+                    census.dotted(st.value.func).startswith("registry.register_"):
                 kind = census.dotted(st.value.func).split("_")[-1]
-                a = st.value.args
-                if len(a) >= 3 and isinstance(a[0], ast.Constant):
-                    reg.setdefault(a[0].value, {})[kind] = ast.unparse(a[2])
+                a_ = st.value.args
+                if len(a_) >= 3 and isinstance(a_[0], ast.Constant):
+                    reg.setdefault(a_[0].value, {})[kind] = ast.unparse(a_[2])
+        return reg
+
+    def r181():
+        I.watch_calls.add("NssGrid.__init__")
+        reg = registered()
         for fmt in sorted(reg):
             ck.ob("R18.1", f"format '{fmt}' has reader, writer and identifier registered", set(reg[fmt]) >=
                   {"reader", "writer", "identifier"}, (m.relpath, 1, 0), "grid.py", str(reg[fmt]))
-            ck.ob("R18.1", f"format '{fmt}': registered reader/writer are the {fmt} functions",
-                  reg[fmt].get("reader") == f"{fmt}_nssgrid_reader" and reg[fmt].get("writer") == f"{fmt}_nssgrid_writer",
-                  (m.relpath, 1, 0), "grid.py", str(reg[fmt]))
         ck.floor("R18.1", len(reg), 2, "registered formats")
+        grid, fname = I.input("grid", kind="obj"), I.input("filename")
+        # ---- the constructor's meta keys
+        st0 = I.new_state()
+        d_in, a_in, n_in = I.input("data", kind="array"), I.input("axes"), I.input("axis_names")
+        obj = I.construct(I.cls(GRID_MOD, "NssGrid"), [d_in, a_in, n_in], {}, st0)
+        meta = attr(I, st0, obj, "meta")
+        comps = [x for x in walk([meta]) if x.op == "DictComp"]
+        ctor_key = None
+        if len(comps) == 1:
+            it, k, v = comps[0].args[:3]
+            src = it.args[0] if it.op == "Enumerate" else it
+            ctor_key = fstr_key(k, it)
+            okv = src is n_in and v.op == "IterElem" and v.args[0] is n_in
+            ck.ob("R18.1", "the constructor records the name of axis k under a key numbered k",
+                  ctor_key is not None and ctor_key[1] == (1, 0) and okv and len(comps[0].args) == 3, comps[0],
+                  "NssGrid.__init__", g.show(comps[0], 3))
+        else:
+            ck.ob("R18.1", "the constructor records the axis names in its meta dictionary", False, meta,
+                  "NssGrid.__init__", g.show(meta, 3))
+        prefix = ctor_key[0] if ctor_key else None
+
+        for fmt in sorted(reg):
+            rn, wn = reg[fmt].get("reader"), reg[fmt].get("writer")
+            if rn not in fns or wn not in fns:
+                ck.ob("R18.1", f"format '{fmt}': registered reader/writer are functions of grid.py", False,
+                      (m.relpath, 1, 0), "grid.py", f"{rn}, {wn}")
+                continue
+            rw = I.run(I.func_node(fns[wn]), [grid, fname])
+            log0 = len(I.call_log)
+            rr = I.run(I.func_node(fns[rn]), [fname])
+            wl = {e.data.get("callee") for e in rw.effects if e.kind in ("io", "io-write")}
+            rl = {e.data.get("callee") for e in rr.effects if e.kind in ("io", "io-write")}
+            layer_w = "hdf5" if any("h5py" in (c or "") for c in wl) else "fits" if any(
+                "writeto" in (c or "") or "fits" in (c or "") for c in wl) else None
+            layer_r = "hdf5" if any("h5py" in (c or "") for c in rl) else "fits" if any(
+                "fits" in (c or "") for c in rl) else None
+            ck.ob("R18.1", f"format '{fmt}': the registered reader and writer use the same file layer",
+                  layer_w is not None and layer_w == layer_r, (m.relpath, fns[rn].node.lineno, 0), rn,
+                  f"writer {wn}: {layer_w}, reader {rn}: {layer_r}")
+            if layer_w != layer_r or layer_w is None:
+                continue
+            loc = ctor_call(log0)
+            r_data, r_axes, r_names = (I.res(loc[k], rr.st) for k in ("data", "axes", "axis_names"))
+            (hdf5_pair if layer_w == "hdf5" else fits_pair)(fmt, wn, rn, rw, rr, grid, r_data, r_axes, r_names, prefix)
+
+    def hdf5_pair(fmt, wn, rn, rw, rr, grid, r_data, r_axes, r_names, prefix):
+        muts = [e for e in rw.effects if e.kind == "mcall-mutate"]
+        cds = [(e,) + call_args(e.node) for e in muts if e.data.get("name") == "create_dataset"]
+        cgs = [(e,) + call_args(e.node) for e in muts if e.data.get("name") == "create_group"]
+        fixed = [(e, const_str(pos[0])) for e, pos, kw in cds if pos and const_str(pos[0]) is not None]
+        per_axis = [(e, pos, kw) for e, pos, kw in cds if pos and const_str(pos[0]) is None]
+        ck.ob("R18.1", "HDF5 writer creates one fixed-name data set and one data set per axis",
+              len(fixed) == 1 and len(per_axis) == 1, (m.relpath, fns[wn].node.lineno, 0), wn,
+              f"{len(fixed)} fixed-name, {len(per_axis)} computed-name create_dataset call(s)")
+        if len(fixed) != 1 or len(per_axis) != 1:
+            return
+        e_data, n_data = fixed[0]
+        # the group: same roots for the data set and for the axes group
+        e_ax, pos_ax, kw_ax = per_axis[0]
+        ax_groups = [(e, const_str(pos[0])) for e, pos, kw in cgs if pos and const_str(pos[0]) is not None and
+                     any(e.node is r_ for r_ in e_ax.data.get("roots", []))]
+        ck.ob("R18.1", "HDF5 writer puts the per-axis data sets into one fixed-name sub-group of the data set's group",
+              len(ax_groups) == 1 and set(map(id, ax_groups[0][0].data.get("roots", []))) ==
+              set(map(id, e_data.data.get("roots", []))), e_ax.node, wn,
+              f"{len(ax_groups)} candidate group(s)")
+        if len(ax_groups) != 1:
+            return
+        n_axes = ax_groups[0][1]
+        # per-axis: name k -> axis k
+        name_n, data_n = pos_ax[0], kw_ax.get("data", pos_ax[1] if len(pos_ax) > 1 else None)
+        loops = [c for c, pol in e_ax.pc if c.op == "InLoop"]
+        it = loops[-1].args[0] if loops else None
+        zipped = list(it.args) if it is not None and it.op == "Zip" else []
+        ok = name_n.op == "IterElem" and data_n is not None and data_n.op == "IterElem" and \
+            name_n.args[0] in zipped and data_n.args[0] in zipped and \
+            name_n.args[0].op == "Attr" and name_n.args[0].attr == "axis_names" and name_n.args[0].args[0] is grid and \
+            data_n.args[0].op == "Attr" and data_n.args[0].attr == "axes" and data_n.args[0].args[0] is grid
+        ck.ob("R18.1", "HDF5 writer stores axis k under axis name k (axes and names walked together)", ok, e_ax.node,
+              wn, g.show(e_ax.node, 2))
+        # meta -> attrs
+        mc = False
+        for e in rw.effects:
+            if e.kind == "write" and e.data.get("how") == "subscript" and e.node is not None and \
+                    e.node.op == "Attr" and e.node.attr == "attrs":
+                idx, val = e.data.get("idx"), e.data.get("value")
+                if idx is not None and val is not None and idx.op == "Elem" and val.op == "Elem" and \
+                        idx.attr == 0 and val.attr == 1 and idx.args[0] is val.args[0] and \
+                        idx.args[0].op == "IterElem" and _is_meta_items(idx.args[0].args[0], grid):
+                    mc = True
+                if idx is not None and val is not None and idx.op == "IterElem" and _is_meta(idx.args[0], grid) and \
+                        val.op == "Subscript" and _is_meta(val.args[0], grid) and val.args[1] is idx:
+                    mc = True
+            if e.kind == "mcall-mutate" and e.data.get("name") == "update" and e.node.args[0].op == "Attr" and \
+                    e.node.args[0].attr == "attrs" and len(e.node.args) == 2 and _is_meta(e.node.args[1], grid):
+                mc = True
+        ck.ob("R18.1", "HDF5 writer copies every meta entry (the numbered axis names) to the group's attributes", mc,
+              (m.relpath, fns[wn].node.lineno, 0), wn, "")
+        # ---- reader
+        okd = r_data.op == "Subscript" and r_data.args[1].op == "Tuple" and not r_data.args[1].args and \
+            r_data.args[0].op == "Subscript" and const_str(r_data.args[0].args[1]) == n_data
+        ck.ob("R18.1", "HDF5 reader opens the data set under the name the writer creates", okd, r_data, rn,
+              f"writer '{n_data}', reader {g.show(r_data, 3)}")
+        grp = r_data.args[0].args[0] if okd else None
+        it_a, elt_a = single_map(r_axes, "HDF5 reader axes")
+        e0 = elt_a
+        whole = e0.op == "Subscript" and e0.args[1].op == "Tuple" and not e0.args[1].args
+        e1 = e0.args[0] if whole else e0
+        oka = whole and e1.op == "Subscript" and e1.args[1].op == "IterElem" and e1.args[1].args[0] is it_a and \
+            g.same(it_a, r_names) and e1.args[0].op == "Subscript" and const_str(e1.args[0].args[1]) == n_axes and \
+            grp is not None and g.same(e1.args[0].args[0], grp)
+        ck.ob("R18.1", "HDF5 reader takes axis k from the writer's axes group under axis name k", oka, elt_a, rn,
+              f"writer group '{n_axes}', reader {g.show(elt_a, 4)}")
+        it_n, elt_n = single_map(r_names, "HDF5 reader axis names")
+        key = fstr_key(elt_n.args[1], it_n) if elt_n.op == "Subscript" else None
+        okn = key is not None and key[0] == prefix and key[1] == (1, 0) and elt_n.args[0].op == "Attr" and \
+            elt_n.args[0].attr == "attrs" and grp is not None and g.same(elt_n.args[0].args[0], grp)
+        ck.ob("R18.1", "HDF5 reader takes axis name k from the attribute the constructor numbered k", okn, elt_n, rn,
+              f"constructor prefix '{prefix}', reader {g.show(elt_n, 3)} -> {key}")
+        cnt = range_count(I, it_n)
+        nd = [x for x in walk([it_n]) if x.op == "Attr" and x.attr == "ndim" and g.same(I.res(x.args[0], rr.st), r_data)]
+        ck.ob("R18.1", "HDF5 reader reads as many axis names as the data has dimensions", cnt is not None and
+              len(nd) >= 1 and cnt == affine(I, nd[0]), it_n, rn, g.show(it_n, 3))
+
+    def fits_pair(fmt, wn, rn, rw, rr, grid, r_data, r_axes, r_names, prefix):
+        wr = [e for e in rw.effects if e.kind == "io-write" and e.data.get("name") == "writeto"]
+        ok = len(wr) == 1 and is_ext_call(base_of(wr[0].node.args[0]), "astropy.io.fits.HDUList") and \
+            len(base_of(wr[0].node.args[0]).args) == 2
+        ck.ob("R18.1", "FITS writer writes one HDU list", ok, wr[0].node if wr else grid, wn,
+              g.show(wr[0].node, 2) if wr else f"{len(wr)} writeto call(s)")
+        if not ok:
+            return
+        lst = I.res(base_of(wr[0].node.args[0]).args[1], rw.st)
+        sf = seqform(I, lst)
+        if sf is None:
+            raise AnalysisError(f"FITS writer: HDU list of unrecognised construction ({g.show(lst, 3)})")
+        prim_pos = [k for k, sgm in enumerate(sf) if sgm[0] == "item" and
+                    is_ext_call(base_of(sgm[1]), "astropy.io.fits.PrimaryHDU")]
+        maps = [k for k, sgm in enumerate(sf) if sgm[0] == "map"]
+        ok = len(sf) == 2 and prim_pos == [0] and maps == [1] and not sf[1][3]
+        ck.ob("R18.1", "FITS writer writes [primary HDU, one table per axis in axis order]", ok, lst, wn,
+              " + ".join(sgm[0] for sgm in sf))
+        if not ok:
+            return
+        prim = base_of(sf[0][1])
+        ppos, pkw = call_args(prim)
+        hdr = pkw.get("header", ppos[1] if len(ppos) > 1 else None)
+        okh = hdr is not None and is_ext_call(hdr, "astropy.io.fits.Header") and len(hdr.args) == 2 and \
+            _is_meta(hdr.args[1], grid)
+        ck.ob("R18.1", "FITS writer puts every meta entry (the numbered axis names) into the primary header", okh,
+              prim, wn, g.show(prim, 3))
+        it_w, elt_w = sf[1][1], sf[1][2]
+        tabs = [x for x in walk([elt_w]) if is_ext_call(x, "astropy.table.Table")]
+        bint = base_of(elt_w)
+        okt = is_ext_call(bint, "astropy.io.fits.BinTableHDU") and len(tabs) == 1 and it_w.op == "Zip" and \
+            tabs[0].args[1].op == "List" and len(tabs[0].args[1].args) == 1 and \
+            tabs[0].args[1].args[0].op == "IterElem" and tabs[0].args[1].args[0].args[0] in it_w.args and \
+            tabs[0].args[1].args[0].args[0].op == "Attr" and tabs[0].args[1].args[0].args[0].attr == "axes" and \
+            tabs[0].args[1].args[0].args[0].args[0] is grid
+        ck.ob("R18.1", "FITS axis table k is built from axis k (one column)", okt, elt_w, wn, g.show(elt_w, 3))
+        # ---- reader
+        okd = r_data.op == "Attr" and r_data.attr == "data" and r_data.args[0].op == "Subscript" and \
+            r_data.args[0].args[1].op == "Const" and r_data.args[0].args[1].attr == prim_pos[0]
+        ck.ob("R18.1", "FITS reader takes the data from the HDU the writer puts the data in", okd, r_data, rn,
+              g.show(r_data, 3))
+        hdul = r_data.args[0].args[0] if okd else None
+        it_a, elt_a = single_map(r_axes, "FITS reader axes")
+        e0 = elt_a
+        okf = e0.op == "MCall" and e0.attr[0] == "field" and len(e0.args) == 2 and e0.args[1].op == "Const" and \
+            e0.args[1].attr == 0 and e0.args[0].op == "Attr" and e0.args[0].attr == "data" and \
+            e0.args[0].args[0].op == "Subscript" and hdul is not None and g.same(e0.args[0].args[0].args[0], hdul)
+        pos_ = position(I, e0.args[0].args[0].args[1], it_a) if okf else None
+        ck.ob("R18.1", "FITS reader takes axis k from HDU k+1 (the writer's table order), first column", okf and
+              pos_ == (1, len(sf) - 1), elt_a, rn, f"{g.show(elt_a, 4)} -> HDU index = {_pos_str(pos_)}")
+        it_n, elt_n = single_map(r_names, "FITS reader axis names")
+        key = fstr_key(elt_n.args[1], it_n) if elt_n.op == "Subscript" else None
+        okn = key is not None and key[0] == prefix and key[1] == (1, 0) and elt_n.args[0].op == "Attr" and \
+            elt_n.args[0].attr == "header" and okd and g.same(elt_n.args[0].args[0], r_data.args[0])
+        ck.ob("R18.1", "FITS reader takes axis name k from the primary header card the constructor numbered k", okn,
+              elt_n, rn, f"constructor prefix '{prefix}', reader {g.show(elt_n, 3)} -> {key}")
+        cn, ca = (range_count(I, it_n), range_count(I, it_a))
+        naxis = [x for x in walk([it_n]) if x.op == "Subscript" and const_str(x.args[1]) == "NAXIS" and
+                 x.args[0].op == "Attr" and x.args[0].attr == "header"]
+        ck.ob("R18.1", "FITS reader reads one axis and one axis name per data dimension (NAXIS card)", cn is not None
+              and cn == ca and len(naxis) == 1 and cn == affine(I, naxis[0]), it_n, rn,
+              f"{g.show(it_n, 3)} / {g.show(it_a, 3)}")
     ck.guard(r181, "R18.1")
 
     # ---------------------------------------------------------------- R18.4 stored unmodified (value graph)
@@ -168,14 +327,14 @@ def run(ck, ctx):
                   okd, data if data is not None else v, "hdf5_nssgrid_reader", g.show(data, 4) if data is not None else "?")
         # FITS writer / reader
         r3 = I.run(I.func_node(fns["fits_nssgrid_writer"]), [grid, fname])
-        prim = [n for n in g.nodes if is_ext_call(n, "astropy.io.fits.PrimaryHDU") and n.fn is not None and
-                n.fn.qualname == "fits_nssgrid_writer"]
+        written = [x for e in r3.effects if e.kind == "io-write" for x in walk([I.res(a_, r3.st) for a_ in
+                                                                                    walk([e.node])])]
+        prim = list({id(n): n for n in written if is_ext_call(n, "astropy.io.fits.PrimaryHDU")}.values())
         okp = len(prim) == 1 and len(prim[0].args) > 1 and prim[0].args[1].op == "Attr" and prim[0].args[1].attr == "data" \
             and prim[0].args[1].args[0] is grid
         ck.ob("R18.4", "FITS writer stores the grid's own data array in the primary HDU", okp, prim[0] if prim else grid,
               "fits_nssgrid_writer", g.show(prim[0], 3) if prim else "")
-        tabs = [n for n in g.nodes if is_ext_call(n, "astropy.table.Table") and n.fn is not None and
-                n.fn.qualname == "fits_nssgrid_writer"]
+        tabs = list({id(n): n for n in written if is_ext_call(n, "astropy.table.Table")}.values())
         okt = len(tabs) == 1 and tabs[0].args[1].op == "List" and len(tabs[0].args[1].args) == 1 and \
             tabs[0].args[1].args[0].op in ("IterElem", "Elem")
         ck.ob("R18.4", "FITS writer stores each axis array itself as a one-column table", okt, tabs[0] if tabs else grid,
@@ -229,3 +388,19 @@ def run(ck, ctx):
         n = audit_tau_tables(ck, ctx)
         ck.floor("R18.3", n, 100000, "table nodes audited")
     ck.guard(audit, "R18.3")
+
+
+def _is_meta(n, grid):
+    return n.op == "Attr" and n.attr == "meta" and n.args[0] is grid
+
+
+def _is_meta_items(n, grid):
+    return (n.op == "MCall" and n.attr[0] == "items" and _is_meta(n.args[0], grid)) or \
+        (n.op == "DictItems" and _is_meta(n.args[0], grid))
+
+
+def _pos_str(p):
+    if p is None:
+        return "?"
+    a, b = p
+    return f"{a}*k + {b}" if a != 1 else f"k + {b}"
